@@ -93,6 +93,7 @@ type benignParams struct {
 	SrvChain     int  // GM: 0 direct leaf, 1 via intermediate
 	SrvMissing   bool // GMSSL server configured with the signing certificate only
 	VHost        bool // the server holds two identities; the client asks for the second name (server2.sim)
+	MultiCert    bool // GMSSL client holding several certificates, an RSA one first: the SM2 one is the one to send
 	Reneg        int  // client's Config.Renegotiation (never / once / freely): no effect on a benign session
 	BigChain     bool // certificate chains padded with unrelated certificates of the same family until the Certificate message exceeds one record (16 KiB)
 	OuterCfg     int  // SrvCertSrc 2: policy fields of the listener configuration: 0 same as the per-connection one, 1 permissive decoy, 2 restrictive decoy
@@ -237,6 +238,9 @@ func drawBenignParams(c *simkit.Choice) benignParams {
 	}
 	p.BigChain = c.Bool(1, 10, simkit.LScen)
 	p.Reneg = c.Weighted([]int{4, 1, 1}, simkit.LScen)
+	if p.CGM && p.ClientCert == 1 && p.CliCertSrc == 0 && p.Peer != peerStdClient {
+		p.MultiCert = c.Bool(1, 3, simkit.LScen)
+	}
 	return p
 }
 
@@ -463,7 +467,7 @@ func gmOnly(l []uint16) []uint16 {
 
 func (p *benignParams) String() string {
 	return fmt.Sprintf("alpn=%v/%v curves=%v smode=%d cgm=%v peer=%d csuites=%x ssuites=%x prefsrv=%v cver=[%x,%x] sver=[%x,%x] auth=%d ccert=%d cas=%v ssrc=%d csrc=%d tick=%v dyn=%v skey=%d cberr=%d cverify=%d chain=%d missing=%v vhost=%v",
-		p.CProtos, p.SProtos, p.Curves, p.SMode, p.CGM, p.Peer, p.CSuites, p.SSuites, p.PreferServer, p.CMin, p.CMax, p.SMin, p.SMax, p.ClientAuth, p.ClientCert, p.SrvClientCAs, p.SrvCertSrc, p.CliCertSrc, p.Tickets, p.DynOff, p.SrvKey, p.CallbackErr, p.CVerify, p.SrvChain, p.SrvMissing, p.VHost) + fmt.Sprintf(" outer=%d bigchain=%v reneg=%d", p.OuterCfg, p.BigChain, p.Reneg)
+		p.CProtos, p.SProtos, p.Curves, p.SMode, p.CGM, p.Peer, p.CSuites, p.SSuites, p.PreferServer, p.CMin, p.CMax, p.SMin, p.SMax, p.ClientAuth, p.ClientCert, p.SrvClientCAs, p.SrvCertSrc, p.CliCertSrc, p.Tickets, p.DynOff, p.SrvKey, p.CallbackErr, p.CVerify, p.SrvChain, p.SrvMissing, p.VHost) + fmt.Sprintf(" outer=%d bigchain=%v reneg=%d multicert=%v", p.OuterCfg, p.BigChain, p.Reneg, p.MultiCert)
 }
 
 // serverConfig builds the gmtls server configuration.
@@ -722,6 +726,9 @@ func (p *benignParams) clientConfig(s *simkit.Sim, ent *simkit.Stream, res *endR
 			}
 		} else {
 			cfg.Certificates = []gmtls.Certificate{*cc}
+			if p.MultiCert {
+				cfg.Certificates = []gmtls.Certificate{pki.GMStd("tlsclirsa"), *cc}
+			}
 		}
 	} else if p.CliCertSrc == 1 {
 		cfg.GetClientCertificate = func(*gmtls.CertificateRequestInfo) (*gmtls.Certificate, error) {
